@@ -21,6 +21,8 @@ ranged pipeline (system)
 * `rw.rebuild <dense chunk id|all>` · `rw.autorebuild` (rebuild the chunks the last write reported corrupted) · `rw.hull` → `cid:cnt:min:max …` · `rw.points cid`
 * `r.windows lo hi` → `cid:minPos:maxPos:count …` of a fresh selector (bounds `none` = absent)
 * `r.scan lo hi page` → `got=<runs> spec=<runs> cls=<2,3,41,4,24> fix2=<0|1|-> fix3=<0|1|-> fix23=<0|1|-> fix41=<0|1|-> fixset=<smallest set of repairs {3,2,41} that restores the specification answer|->`
+* `rw.rebuildcounts c1,c2,…` (rebuild chunk i from its first ci records only; `-` = not rebuilt)
+* `c.open lo hi` · `c.page n` (a cached cursor continued across writes; answers the runs of one page)
 * `r.new lo hi` · `r.get` · `r.next` · `r.setpos cid idx` · `r.bkwd 0|1` (JIterator step by step)
 -/
 open Logrange Driver
@@ -249,6 +251,38 @@ def step (d : DS) (toks : List String) : DS × String :=
            | none => "-"
          (d, s!"got={runs got} spec={runs spec} cls={clsS} fix2={b01 f2} fix3={b01 f3} fix23={b01 f23} fix41={b01 f41} fixset={fixset}")
      | _, _, _ => (d, "bad-op"))
+  | ["rw.rebuildcounts", spec] =>
+    -- rebuilds that saw only the first `count` records of each chunk (records written but not yet confirmed are invisible
+    -- to the rebuild); `-` = chunk not rebuilt
+    let (d, lay) := withLayout d
+    let cnts := spec.splitOn ","
+    let reb (rebuildF : CIndex.St → Nat → List Int → CIndex.St) (ci : CIndex.St) : CIndex.St :=
+      (List.range cnts.length).foldl (fun ci i =>
+        match (cnts.getD i "-").toNat?, lay.1[i]? with
+        | some cnt, some ck => rebuildF ci (ck.id / 10) (((lay.2.1[i]?).getD #[]).extract 0 cnt).toList
+        | _, _ => ci) ci
+    ({ d with rcidx := reb CIndex.rebuild d.rcidx, rcidx2 := reb CIndex.rebuild d.rcidx2, rcidx3 := reb CIndex.rebuildRepaired d.rcidx3, rcidx4 := reb CIndex.rebuildRepaired d.rcidx4 }, "ok")
+  | ["c.open", a, b] =>
+    -- a server-held (cached) cursor: selector statuses, iterator and filter state live across pages and writes
+    (match optBound a, optBound b with
+     | some lo, some hi => let (mn, mx) := RangedIter.rangeOf lo hi; ({ d with rg := some { rmin := mn, rmax := mx } }, "ok")
+     | _, _ => (d, "bad-op"))
+  | ["c.page", n] =>
+    (match d.rg, n.toNat? with
+     | some st, some limit =>
+       let (d, st) := refresh d st
+       let (d, lay) := withLayout d
+       let rec go (fuel : Nat) (st : RangedIter.St) (left : Nat) (acc : Array Nat) : RangedIter.St × Array Nat :=
+         match fuel with
+         | 0 => (st, acc)
+         | fuel+1 =>
+           if left == 0 then (st, acc) else
+           match RangedIter.curGet (d.allTs.size + 2) st with
+           | (st', none) => (st', acc)
+           | (st', some p) => go fuel (RangedIter.curNext st') (left - 1) (acc.push (seqOf lay p))
+       let (st', got) := go (d.allTs.size + 2) st limit #[]
+       ({ d with rg := some st' }, runs got)
+     | _, _ => (d, "bad-op"))
   | ["r.new", a, b] =>
     (match a.toInt?, b.toInt? with
      | some mn, some mx => ({ d with rg := some { rmin := mn, rmax := mx } }, "ok")
